@@ -1042,11 +1042,17 @@ def run(ctx):
         regs.append([(2000, 20)])
     check_skeleton(ctx)
     quick = ctx.tier != 'thorough'
-    eval_cases(ctx, single_cases(ctx, regs, wide and not quick), time.time() + 15 if quick else None)
-    eval_cases(ctx, two_cases(ctx, wide), time.time() + 10 if quick else None)
-    ctx.extra['exhaustive_parts'] = ('all fault positions of every listed single-call scenario; all 924 interleavings of two 6-step calls '
+    t_start = time.time()
+    ctx.extra['phase_s'] = {'extract+lake build+axiom audit (includes waiting for the shared build lock)': round(t_start - ctx.t0, 1)}
+    eval_cases(ctx, single_cases(ctx, regs, wide and not quick), time.time() + (15 if ctx.broken else 20) if quick else None)
+    eval_cases(ctx, two_cases(ctx, wide), time.time() + (10 if ctx.broken else 20) if quick else None)
+    ctx.extra['two_writer_interleavings_of_two_6_step_calls_run'] = '%d of 924' % min(924, ctx.dist.get('two-writers', 0))
+    ctx.extra['exhaustive_parts'] = ('unless `cases-not-run-for-lack-of-time` appears in the distribution: ''all fault positions of every listed single-call scenario; all 924 interleavings of two 6-step calls '
                                      '(the space of registries and contents itself is unbounded and is covered by the theorems, not enumerated)')
+    t_mid = time.time()
     kill_trials(ctx, 150 if ctx.tier == 'thorough' else 3)
+    ctx.extra['phase_s']['real code + model driver, single calls and two writers'] = round(t_mid - t_start, 1)
+    ctx.extra['phase_s']['SIGKILL trials'] = round(time.time() - t_mid, 1)
     ctx.extra.setdefault('documented_limits', {})
 
 
